@@ -13,6 +13,9 @@ Proof. destruct a, b; reflexivity. Qed.
 Lemma In_bits_of x i : In i (bits_of x) <-> i < 64 /\ N.testbit x i = true.
 Proof. unfold bits_of. rewrite filter_In, In_sq64. tauto. Qed.
 
+Lemma xsum_bits_of (f : N -> N) x : xsum f (bits_of x) = xsum (fun i => if N.testbit x i then f i else 0) sq64.
+Proof. unfold bits_of. apply xsum_filter. Qed.
+
 Lemma NoDup_bits_of x : NoDup (bits_of x).
 Proof. unfold bits_of. apply NoDup_filter, NoDup_sq64. Qed.
 
@@ -184,4 +187,55 @@ Proof.
   { unfold cell in Ci. destruct (N.testbit (allp b) i); [|discriminate]. now injection Ci as -> _. }
   destruct (side s) eqn:S; destruct d; cbn [dir_eqb backward negb]; rewrite ?N.bits_0, ?N.land_spec, ?bnot_spec, ?KR, ?P1;
     destruct k; try reflexivity; destruct (N.ltb_spec i 64); try lia; reflexivity.
+Qed.
+
+(* ---- counting pieces ---- *)
+Lemma count_ones_filter x : count_ones x = N.of_nat (length (filter (N.testbit x) sq64)).
+Proof. reflexivity. Qed.
+
+Lemma filter_ext_in' {A} (f g : A -> bool) l : (forall a, In a l -> f a = g a) -> filter f l = filter g l.
+Proof.
+  induction l as [|a l IH]; intros H; [reflexivity|]. cbn [filter]. rewrite (H a (or_introl eq_refl)), IH; [reflexivity|].
+  intros x Hx. apply H. now right.
+Qed.
+
+Definition is_piece (c : cellf) (o : bool) (k : piece) (i : N) : bool := cell_eqb (c i) (Some (o, k)).
+
+Lemma bits_for_piece_cell b k o i : WFb b -> i < 64 -> N.testbit (bits_for_piece b k o) i = is_piece (cell b) o k i.
+Proof.
+  intros W Hi. unfold bits_for_piece. rewrite N.land_spec. fold (kind_bit b k i). rewrite kind_bit_cell, player_mask_spec by assumption.
+  unfold friend_at, is_piece, cell_eqb. destruct (cell b i) as [[o' k']|]; [|reflexivity].
+  destruct k, k', o, o'; reflexivity.
+Qed.
+
+Lemma count_kind_cells b k o : WFb b ->
+  count_ones (bits_for_piece b k o) = N.of_nat (length (filter (is_piece (cell b) o k) sq64)).
+Proof.
+  intros W. rewrite count_ones_filter. do 2 f_equal. apply filter_ext_in'. intros i Hi. apply bits_for_piece_cell; [exact W|now apply In_sq64].
+Qed.
+
+Lemma land_zero_count x : wf64 x -> (x =? 0) = (count_ones x =? 0).
+Proof.
+  intros H. rewrite (testbit_zero_iff x H), count_ones_filter.
+  induction sq64 as [|a l IH]; [reflexivity|]. cbn [existsb filter]. destruct (N.testbit x a); cbn [orb negb length]; [|exact IH].
+  symmetry. apply N.eqb_neq. lia.
+Qed.
+
+(* the mover's pieces split by kind *)
+Lemma count_partition (c : cellf) o l :
+  length (filter (friend_at c o) l) =
+  (length (filter (is_piece c o Elephant) l) + length (filter (is_piece c o Camel) l) + length (filter (is_piece c o Horse) l) +
+   length (filter (is_piece c o Dog) l) + length (filter (is_piece c o Cat) l) + length (filter (is_piece c o Rabbit) l))%nat.
+Proof.
+  induction l as [|i l IH]; [reflexivity|]. cbn [filter].
+  assert (forall K, is_piece c o K i = match c i with Some (o', k') => Bool.eqb o' o && piece_eqb k' K | None => false end) as HK by reflexivity.
+  assert (friend_at c o i = match c i with Some (o', _) => Bool.eqb o o' | None => false end) as HF by reflexivity.
+  rewrite !HK, HF.
+  destruct (c i) as [[o' k']|]; [destruct o, o', k'|]; cbn [Bool.eqb piece_eqb andb length]; rewrite IH; lia.
+Qed.
+
+Lemma player_mask_count b o : WFb b ->
+  length (bits_of (player_piece_mask b o)) = length (filter (friend_at (cell b) o) sq64).
+Proof.
+  intros W. unfold bits_of. f_equal. apply filter_ext_in'. intros i Hi. apply player_mask_spec; [exact W|now apply In_sq64].
 Qed.
